@@ -234,12 +234,36 @@ def results_vcs() -> List[core.VC]:
 # ---------------------------------------------------------------------------------------------- bounded
 
 
+def _repetitive_events(n_inst: int, op_dur: int) -> List[Dict[str, Any]]:
+    """n_inst instances of one operator, each launching the same two kernels; every entry has a duration and all durations
+    fit the narrowest integer type, while the per-pattern totals do not."""
+    from hv import synth
+
+    evs: List[Dict[str, Any]] = []
+    t, corr = 1_000_000, 700
+    evs.append(synth.host_op("aten::first_op", t, 5))
+    t += 10
+    for i in range(n_inst):
+        evs.append(synth.host_op("aten::linear", t, op_dur))
+        evs.append(synth.host_op("aten::addmm", t + 2, op_dur - 4))
+        for j, kn in enumerate(["void gemm_kernel_a", "void elementwise_kernel_b"]):
+            corr += 1
+            evs.append(synth.launch(t + 4 + 6 * j, 4, corr))
+            evs.append(synth.kernel(kn, t + 6 + 6 * j, op_dur // 3, 7 + 2 * j, corr))
+        t += op_dur + 5
+    return evs
+
+
 def _case(arg) -> Dict[str, Any]:
-    seed, min_len, top_k = arg
+    seed, min_len, top_k = arg[:3]
     from hv import gen, rt
 
     kw = dict(n_threads=1 + seed % 2, n_streams=2, steps=1 + seed % 2, p_launch=0.8, p_zero=0.0, min_launch_q=1, p_sync=0.0, n_top=3 + seed % 2, max_depth=3, p_missing_kernel=0.05)
+    if seed % 3 == 2:
+        kw.update(steps=0, n_top=6, noncomplete_events=False)  # no long annotation, no entry without a duration: the loader stores `dur` in one byte while pattern totals exceed it
     per_rank = gen.gen_trace_set(seed, n_ranks=1, **kw)
+    if len(arg) > 3:
+        per_rank = {0: _repetitive_events(*arg[3])}
     fails: List[Dict[str, Any]] = []
     n = 0
     outdir = tempfile.mkdtemp(prefix="hv_c16_")
@@ -319,9 +343,10 @@ def bounded(ctx):
     from hv import rt
 
     n = 32 if not ctx.thorough else 400
-    res = rt.pmap(_case, [(ctx.seed * 307 + i, [1, 2, 3][i % 3], [1, 5][i % 2]) for i in range(n)], ctx.procs)
+    rep = [(ctx.seed * 307 + 900 + i, 1 + i % 2, 5, spec) for i, spec in enumerate([(12, 30), (40, 1000), (9, 120)])]  # int8 / int16 / int8 totals beyond the type
+    res = rt.pmap(_case, [(ctx.seed * 307 + i, [1, 2, 3][i % 3], [1, 5][i % 2]) for i in range(n)] + rep, ctx.procs)
     return rt.summarise(res, f"{PROP}.bounded", f"{n} generated traces x 4 operator names (exact, prefix, substring occurring at several depths) x min_pattern_len 1-3 x top_k 1/5, kernels on "
-                        "two streams (overlapping, so sums exceed spans); oracle recomputed from the parent column")
+                        "two streams (overlapping, so sums exceed spans) + 3 repetitive traces whose durations fit int8 / int16 while pattern totals do not; oracle recomputed from the parent column")
 
 
 def units(ctx):
